@@ -200,7 +200,7 @@ with compile_parts (fuel : nat) (ps : parts) (st : state) {struct fuel} : M R :=
   | PNil => Ok ([], st)
   | PRef g r =>
       (* first use of a not yet loaded function: loadSymbol deletes it from syms and runs its loader on
-         the same CodeBuilder; nothing restores cb.comments afterwards *)
+         the same CodeBuilder, in the middle of the referring statement *)
       x <- (if memN g (unl st) then load_func f g (set_unl (removeN g (unl st)) st) else Ok st) ;;
       compile_parts f r x
   | PLit b r =>
@@ -254,9 +254,11 @@ with load_func (fuel : nat) (g : N) (st : state) {struct fuel} : M state :=
   match fuel with O => OutOfFuel | S f =>
   match find_func pr g with
   | Some (DFunc _ p docp hasdoc docskip shadow body) =>
-      x <- compile_stmts f body (set_cm None st) ;;            (* loadFuncBody: cb.SetComments(nil, false) *)
+      let backup := cm st in                                   (* loadFuncBody: comments, once := cb.BackupComments() *)
+      x <- compile_stmts f body (set_cm None st) ;;            (* cb.SetComments(nil, false) *)
       let '(bl, st1) := x in
-      Ok (add_out g (print_func p docp hasdoc docskip shadow bl) st1)
+      (* defer cb.SetComments(comments, once): the statement that pulled the function in keeps its comment *)
+      Ok (add_out g (print_func p docp hasdoc docskip shadow bl) (set_cm backup st1))
   | _ => Ok st
   end end.
 
@@ -351,31 +353,6 @@ Definition predict (ls : list outline) (id : N) : option (N * N) :=
   match find_id ls id 0 with Some i => go_line_of ls i | None => None end.
 
 (* ---- guards of the theorem (computable, so that the check can evaluate them on every generated package) ---- *)
-Fixpoint refs_stmt (s : stmt) : list N :=
-  match s with
-  | SSimple _ _ ps => refs_parts ps
-  | SDecl _ _ _ _ _ ps => refs_parts ps
-  | SBlock _ b => refs_stmts b
-  | SIf _ _ i ps b e => refs_ostmt i ++ refs_parts ps ++ refs_stmts b ++ refs_els e
-  | SFor _ _ i ps po b => refs_ostmt i ++ refs_parts ps ++ refs_stmts b ++ refs_ostmt po
-  | SRange _ _ ps b => refs_parts ps ++ refs_stmts b
-  | SPhraseIf _ _ ps _ cps b => refs_parts ps ++ refs_parts cps ++ refs_stmts b
-  | SSwitch _ _ i ps cs => refs_ostmt i ++ refs_parts ps ++ refs_clauses cs
-  | SSelect _ cs => refs_clauses cs
-  | SLabeled _ s1 => refs_stmt s1
-  end
-with refs_stmts (b : stmts) : list N := match b with SNil => [] | SCons s r => refs_stmt s ++ refs_stmts r end
-with refs_ostmt (o : ostmt) : list N := match o with ONone => [] | OSome s => refs_stmt s end
-with refs_parts (ps : parts) : list N :=
-  match ps with PNil => [] | PRef g r => g :: refs_parts r | PLit b r => refs_stmts b ++ refs_parts r
-  | PLam _ i r => refs_parts i ++ refs_parts r end
-with refs_els (e : els) : list N := match e with ENone => [] | EBlock b => refs_stmts b | EIf s => refs_stmt s end
-with refs_clauses (cs : clauses) : list N :=
-  match cs with
-  | CNil => []
-  | CCons _ _ c ps b _ r => refs_parts ps ++ refs_ostmt c ++ refs_stmts b ++ refs_clauses r
-  end.
-
 (* a doc comment is adjacent to its declaration: it starts docskip lines above it, in the same file *)
 Definition doc_ok (p docp : pos) (hasdoc : bool) (docskip : N) : bool :=
   if hasdoc then
@@ -410,22 +387,15 @@ with wf_clauses (cs : clauses) : bool :=
   | CCons _ _ c ps b _ r => wf_parts ps && wf_ostmt c && wf_stmts b && wf_clauses r
   end.
 
-(* no reference in rs is to a function that is still unloaded *)
-Definition noload (U : list N) (rs : list N) : bool := forallb (fun g => negb (memN g U)) rs.
-
-
 Fixpoint nodupb (l : list N) : bool := match l with [] => true | x :: t => negb (memN x t) && nodupb t end.
 
-(* guard of the theorem: every function body only refers to functions declared earlier (or to itself),
-   and every doc comment is adjacent to its declaration *)
-Fixpoint backward_refs (ds : list decl) : bool :=
-  match ds with
-  | [] => true
-  | DFunc g p dp hd dk sh body :: t =>
-      noload (func_names t) (refs_stmts body) && wf_stmts body && doc_ok p dp hd dk && backward_refs t
-  | DMethod g p dp hd dk body :: t => wf_stmts body && doc_ok p dp hd dk && backward_refs t
+(* guard of the theorem: every doc comment is adjacent to its declaration *)
+Definition wf_decl (d : decl) : bool :=
+  match d with
+  | DFunc _ p dp hd dk _ body => doc_ok p dp hd dk && wf_stmts body
+  | DMethod _ p dp hd dk body => doc_ok p dp hd dk && wf_stmts body
   end.
-
+Definition wf_prog (pr : prog) : bool := forallb wf_decl pr.
 
 (* ---- the source positions whose first code must show up as a tagged line (a statement that starts with an
    init statement has the bare keyword as its first line: its first code is the init statement's) ---- *)
@@ -456,8 +426,10 @@ with tags_els (e : els) : list pos := match e with ENone => [] | EBlock b => tag
 with tags_clauses (cs : clauses) : list pos :=
   match cs with
   | CNil => []
-  | CCons _ p c ps b _ r => hdr_tag p c ++ tags_parts ps ++ tags_ostmt c ++ tags_stmts b ++ tags_clauses r
+  | CCons _ p c ps b _ r => hdr_tag p c ++ tags_ostmt c ++ tags_parts ps ++ tags_stmts b ++ tags_clauses r
   end.
 
 Definition line_tags (ls : list outline) : list pos :=
   flat_map (fun l => match l with Code _ (Some t) => [Some t] | _ => [] end) ls.
+(* the positioned ones *)
+Definition somes (l : list pos) : list pos := flat_map (fun p => match p with Some t => [Some t] | None => [] end) l.
